@@ -92,11 +92,14 @@ FromsSame6 == {<<From1("l", ""), [tbl |-> "l", alias |-> "", jt |-> jt, on |-> <
 ListsSame6 == {<<Star>>, <<ColItem("", "id", "")>>, <<ColItem("l", "k", ""), ColItem("", "x", "")>>, <<ColItem("", "w", "")>>}
 FromsAlias6 == {<<From1("l", "x"), [tbl |-> "l", alias |-> "y", jt |-> jt, on |-> << <<Cmp(Col("x", "k"), op, Col("y", "id"))>> >>]>> : jt \in JTs, op \in {"=", "<"}}
                \cup {<<From1("l", "x"), [tbl |-> "r", alias |-> "", jt |-> jt, on |-> << <<Cmp(Col("x", "k"), "=", Col("r", "k"))>> >>]>> : jt \in JTs}
+               \* correlation names that differ by case only are different names
+               \cup {<<From1("l", "x"), [tbl |-> "l", alias |-> "X", jt |-> jt, on |-> << <<Cmp(Col("x", "k"), op, Col("X", "id"))>> >>]>> : jt \in JTs, op \in {"=", "<"}}
 Lists6 == {<<Star>>, <<ColItem("l", "id", ""), ColItem("r", "w", "")>>, <<ColItem("", "id", ""), ColItem("r", "k", "rk")>>,
            <<ColItem("", "ok", ""), ColItem("l", "x", ""), ColItem("", "id", "")>>, <<ColItem("r", "y", ""), ColItem("", "x", ""), ColItem("z", "z", "")>>,
            <<ColItem("", "k", "")>>,                \* ambiguous over l and r: must be refused
            <<ColItem("", "w", ""), ColItem("l", "k", "")>>}   \* ambiguous only when z is joined too
 ListsAlias6 == {<<Star>>, <<ColItem("x", "id", ""), ColItem("y", "k", "")>>, <<ColItem("x", "k", "a"), ColItem("x", "id", "")>>,
+                <<ColItem("X", "k", ""), ColItem("x", "id", ""), ColItem("X", "x", "")>>,
                 <<ColItem("l", "id", "")>>}        \* the table name is hidden by its alias
 Wheres6 == {<<>>, << <<Cmp(Col("l", "id"), "=", Lit(IntV(1)))>> >>, << <<Cmp(Col("", "id"), ">", Lit(IntV(1)))>> >>}
 
